@@ -69,6 +69,18 @@ PROPS = {
             dict(name="TestCancelDuringDispatch", quick=1500, thorough=20000, shards_thorough=4),
         ],
     ),
+    "C07": dict(
+        pkg="c07", level="exploration",
+        technique="property-based stress testing (rapid-generated concurrent programs, race detector) with an overlap detector and an order oracle",
+        level_text="Generated publisher programs run free on real goroutines (barrier start, drawn GOMAXPROCS, yields inside the critical section); a compare-and-swap in the handler body detects any overlap, multisets and sequences of delivered ids are compared with what was published. Schedules are sampled, not enumerated.",
+        level_note="An overlap is only seen on an interleaving that actually happens; yields inside the critical section make the window wide.",
+        crash_is_violation=True,
+        assumptions=COMMON_ASSUME + ["'publish order' is the order of Publish calls made by one goroutine (README: 'preserves order')"],
+        tests=[
+            dict(name="TestOverlap", quick=400, thorough=4000, shards_thorough=8, race=True, shrinktime="5s"),
+            dict(name="TestOrder", quick=3000, thorough=30000, shards_thorough=8, shrinktime="5s"),
+        ],
+    ),
 }
 
 HOOK_COMMITS = []
